@@ -491,6 +491,171 @@ MANIFEST["C40"] = dict(
 
 
 # --------------------------------------------------------------------------------------------
+# C39  configuration loading: step thresholds and structural classes
+# --------------------------------------------------------------------------------------------
+CFG_PROTO_TEST = "config::verif_hook::verif_config"
+CFG_DAEMON_TEST = "daemon::config::verif_hook::verif_config"
+SIG_F9_NEG = "ConfigThresholds:negative-threshold-accepted"
+SIG_F9_NONFINITE = "ConfigThresholds:non-finite-direction-value-panics"
+SIG_F9_ACC = "ConfigThresholds:negative-accumulated-threshold-accepted"
+TOML_VAL = {"neg": "-1.5", "negint": "-3", "negzero": "-0.0", "zero": "0.0", "pos": "2.25", "posint": "7", "pinf": "inf", "ninf": "-inf",
+            "nan": "nan", "infstr": '"inf"', "otherstr": '"many"', "bool": "true", "hugeint": "9223372036854775807",
+            "table": "{ a = 1 }", "array": "[1, 2]"}
+MALFORMED = {
+    "empty": "",
+    "garbage": "\x00\x01 this is = = not toml [[[",
+    "unknown-key": "[synchronization]\nno-such-setting = 1\n",
+    "unknown-table": "[no-such-table]\na = 1\n",
+    "duplicate-key": "[synchronization]\nlocal-stratum = 2\nlocal-stratum = 3\n",
+    "duplicate-table": "[synchronization]\nlocal-stratum = 2\n[synchronization]\nwarn-on-jump = true\n",
+    "table-as-number": "synchronization = 5\n",
+    "array-as-table": "[[synchronization]]\nlocal-stratum = 2\n",
+    "unterminated-string": "[observability]\nlog-level = \"info\n",
+    "nested-threshold-unknown-key": "[synchronization]\nsingle-step-panic-threshold = { sideways = 1.0 }\n",
+    "threshold-duplicate-direction": "[synchronization]\nsingle-step-panic-threshold = { forward = 1.0, forward = 2.0 }\n",
+    "threshold-empty-map": "[synchronization]\nstartup-step-panic-threshold = { }\n",
+    "threshold-array": "[synchronization]\nsingle-step-panic-threshold = [1.0, 2.0]\n",
+}
+
+
+def threshold_doc(c):
+    v = TOML_VAL[c["val"]]
+    expr = {"number": v, "fwd": "{ forward = %s }" % v, "bwd": "{ backward = %s }" % v,
+            "both": "{ forward = %s, backward = 1.5 }" % v, "both2": "{ forward = 2.5, backward = %s }" % v}[c["form"]]
+    return "[synchronization]\n%s = %s\n" % (c["key"], expr)
+
+
+def struct_doc(c):
+    if c["field"] == "malformed":
+        return MALFORMED[c["val"]]
+    v = TOML_VAL[c["val"]]
+    f = c["field"]
+    if f == "source.pool.count":
+        return '[[source]]\nmode = "pool"\naddress = "pool.example.org"\ncount = %s\n' % v
+    if f.startswith("source.sock."):
+        other = "accuracy" if f.endswith("precision") else "precision"
+        return '[[source]]\nmode = "sock"\npath = "/run/verif.sock"\n%s = %s\n%s = 0.001\n' % (f.split(".")[-1], v, other)
+    if f.startswith("server."):
+        return '[[server]]\nlisten = "127.0.0.1:1123"\n%s = %s\n' % (f.split(".")[-1], v)
+    parts = f.split(".")
+    return "[%s]\n%s = %s\n" % (".".join(parts[:-1]), parts[-1], v)
+
+
+def cfg_sig(a):
+    c = a["c"]
+    if a["kind"] == "threshold":
+        return "%s[%s,%s,%s]" % (a["path"], c["key"], c["form"], c["val"])
+    return "struct[%s=%s]" % (c["field"], c["val"])
+
+
+def run_c39(out, tier, seed):
+    out.coverage["rule"] = ("every threshold class (3 settings x 5 forms x 12 value classes) through the serde visitors of ntp-proto and, as a "
+                            "TOML document, through toml::from_str::<Config> + Config::check; outcome compared with the intended loader of "
+                            "ConfigThresholds.tla; structural classes (26 other settings x 15 value classes, 13 malformed documents): no panic")
+    out.assumptions += ["code observed as compiled for tests (debug assertions on: NaN / infinite per-direction values panic in "
+                        "NtpDuration::from_seconds; in release builds NaN is accepted as 0 and infinities saturate)",
+                        "one representative value per class; the configuration file is read as a string (file-system errors not exercised)"]
+    ce = {}
+    for name in ("Negative", "NaN"):
+        res = vf.run_tlc("MC_ConfigThresholds", "CE_ConfigThresholds_%s.cfg" % name, workers=1, timeout=600, tags=(), coverage=False)
+        if "C39_Holds" not in res.violated:
+            raise vf.ToolError("the as-coded threshold loader no longer violates C39 (%s): transcription changed?" % name)
+        tr = tlc_trace_json(res)
+        if len(tr) < 2:
+            raise vf.ToolError("cannot read TLC's counterexample (%s)" % name)
+        ce[name] = tr[-1]
+        out.add("design_level_counterexamples_found_by_tlc", 1)
+    g, mc, inits = vf.collect_graph("MC_ConfigThresholds", "Gen_ConfigThresholds.cfg", workers=4, timeout=1500)
+    if mc.violated:
+        raise vf.ToolError("intended threshold loader violates %s at design level:\n%s" % (mc.violated, mc.error_trace[:3000]))
+    out.add("states", mc.distinct)
+    out.add("transitions", mc.generated)
+    recs = [e[2] for e in g.edges]
+    thr = [r for r in recs if r["act"]["kind"] == "threshold"]
+    if not any(r["out"]["verdict"] == "ok" for r in thr) or not any(r["out"]["verdict"] == "err" for r in thr) or not any(r["dev"] for r in thr):
+        raise vf.ToolError("vacuous class enumeration")
+    rng = random.Random(seed)
+    order = list(range(len(recs)))
+    rng.shuffle(order)
+    wd = vf.workdir("ConfigThresholds")
+    res = {}
+    for path, crate, test in (("proto", "ntp_proto", CFG_PROTO_TEST), ("daemon", "ntpd", CFG_DAEMON_TEST)):
+        rows = []
+        for i in order:
+            a = recs[i]["act"]
+            if a["path"] != path:
+                continue
+            row = {"id": i, "act": a, "out": recs[i]["out"]}
+            if path == "daemon":
+                row["doc"] = threshold_doc(a["c"]) if a["kind"] == "threshold" else struct_doc(a["c"])
+            rows.append(row)
+        wf, rf = os.path.join(wd, "classes_%s.ndjson" % path), os.path.join(wd, "results_%s.ndjson" % path)
+        vf.write_ndjson(wf, rows)
+        vf.run_harness(crate, test, {"mode": "replay", "input": wf, "output": rf, "seed": seed})
+        got = vf.read_ndjson(rf)
+        if len(got) != len(rows):
+            raise vf.ToolError("harness returned %d results for %d classes (%s)" % (len(got), len(rows), path))
+        res.update({r["id"]: r for r in got})
+    confirmed = 0
+    struct_ok = struct_err = 0
+    for i, rec in enumerate(recs):
+        r = res[i]
+        a = rec["act"]
+        obs = r["observed"] or {}
+        if a["kind"] == "struct":
+            struct_ok += obs.get("verdict") == "ok"
+            struct_err += obs.get("verdict") == "err"
+        fields = set(r["fields"])
+        if not fields:
+            confirmed += 1
+            continue
+        cone = set(rec["cones"]["C39"])
+        detail = {"how": "replay", "class": a, "expected": rec["out"], "observed": obs, "panic": r.get("panic"), "differing": sorted(fields)}
+        if a["kind"] == "struct" or a["path"] == "daemon":
+            detail["document"] = threshold_doc(a["c"]) if a["kind"] == "threshold" else struct_doc(a["c"])
+        if not (fields & cone):
+            out.divergences.append(detail)
+            continue
+        explained = None
+        if rec.get("dev"):
+            coded = rec["coded"]
+            if coded["verdict"] == "panic" and obs.get("verdict") == "panic":
+                explained = SIG_F9_NONFINITE
+            elif coded["verdict"] == "ok" and all(obs.get(k) == coded[k] for k in ("verdict", "fwd", "bwd")) and not r.get("panic"):
+                explained = SIG_F9_ACC if a["c"]["key"].startswith("accumulated") else SIG_F9_NEG
+        if explained:
+            out.add("classes_deviating_as_the_as_coded_loader_predicts", 1)
+            out.violation(explained, detail)
+            if explained == SIG_F9_NEG:
+                out.sample({"finding": "F-9", "class": cfg_sig(a), "observed": obs}, cap=4)
+        else:
+            out.violation("ConfigThresholds:%s:%s" % (cfg_sig(a), ",".join(sorted(fields & cone))), detail)
+    if struct_ok < 40 or struct_err < 40:
+        raise vf.ToolError("structural classes look vacuous: %d accepted, %d rejected" % (struct_ok, struct_err))
+    out.add("structural_documents_accepted", struct_ok)
+    out.add("structural_documents_rejected", struct_err)
+    out.add("model_transitions_constrained_by_property", len(recs))
+    out.add("model_transitions_confirmed_on_impl", confirmed)
+    out.add("replayed_steps", len(recs))
+    out.add("traces_validated_against_impl", 0)
+    out.sample({"class": cfg_sig(thr[0]["act"]), "expected": thr[0]["out"]})
+
+
+PROPS.append("C39")
+_RUN["C39"] = ("model_checking", run_c39)
+MANIFEST["C39"] = dict(
+    level="model_checking", engine="tlc+replay", design_ref="6.11, 7 (daemon task group), 9 (F-9)",
+    technique="TLA+ loader of the step-threshold settings (spec/ConfigThresholds.tla) in an intended and an as-coded variant, checked by "
+              "TLC over the class grammar; every class driven through the real serde visitors (ntp-proto) and through "
+              "toml::from_str::<Config> + Config::check (ntpd) under catch_unwind; structural TOML classes with the no-panic oracle",
+    text="Loading yields an error or a configuration, never a panic; an accepted single / startup / accumulated step threshold is never "
+         "negative and a document giving a negative number or NaN for (a direction of) a threshold is rejected: 3 settings x "
+         "{number, forward, backward, both} x 12 value classes on two paths; 26 other settings x 15 value classes and 13 malformed documents do not panic.",
+    note="class grammar with one representative per class; the structural classes only have the no-panic oracle; observed as compiled for "
+         "tests (debug assertions); command-line overrides and file-system errors are not exercised")
+
+
+# --------------------------------------------------------------------------------------------
 def run(prop, tier, seed):
     level, fn = _RUN[prop]
     out = vf.Outcome(prop, tier, seed, level)
